@@ -127,7 +127,10 @@ func rulesC17(c *Ctx) {
 			f := c.Fn(pM, "featureSet", name)
 			g := f.Graph()
 			sv := g.callVertices(sk)
-			ok := len(sv) == 1 && (sv[0] == g.Entry || func() bool { okd, _ := g.MustPass(g.Entry, g.Exits, func(v int) bool { return v == sv[0] }); return okd }())
+			ok := len(sv) == 1 && (sv[0] == g.Entry || func() bool {
+				okd, _ := g.MustPass(g.Entry, g.Exits, func(v int) bool { return v == sv[0] })
+				return okd
+			}())
 			c.Check(ok, name+":sortKeys-first", f, nil, "%s() rebuilds the index before using it", name)
 		}
 		yf := c.FnObj(pM, "featureSet", "yieldFrom")
@@ -223,7 +226,10 @@ func rulesC17(c *Ctx) {
 		for _, call := range pl.CallsIn(pl.Body, enc, false) {
 			if uc, ok := ast.Unparen(call.Args[0]).(*ast.CallExpr); ok && strings.HasSuffix(exprStr(uc.Fun), "uniqueID") && len(uc.Args) == 1 {
 				if ix, ok := ast.Unparen(uc.Args[0]).(*ast.IndexExpr); ok && pl.ObjOf(ix.X) == pageVar {
-					if b, ok := ast.Unparen(ix.Index).(*ast.BinaryExpr); ok && b.Op == token.SUB && func() bool { lc, ok := ast.Unparen(b.X).(*ast.CallExpr); return ok && pl.BuiltinName(lc) == "len" && pl.ObjOf(lc.Args[0]) == pageVar }() {
+					if b, ok := ast.Unparen(ix.Index).(*ast.BinaryExpr); ok && b.Op == token.SUB && func() bool {
+						lc, ok := ast.Unparen(b.X).(*ast.CallExpr)
+						return ok && pl.BuiltinName(lc) == "len" && pl.ObjOf(lc.Args[0]) == pageVar
+					}() {
 						if k, isC := pl.ConstInt(b.Y); isC && k == 1 {
 							okLast = true
 						}
